@@ -15,6 +15,7 @@ structure PrepFacts (d0 d : Doc V) (pr : Prep V) : Prop where
   inv : Inv d0 ⟨pr.st2, d.tr⟩
   len_eq : pr.st2.refs.length = pr.xid + 1
   xid_ge : d.st.refs.length ≤ pr.xid
+  xid_le : pr.xid ≤ d.st.refs.length + 1
   xid_prom : pr.st2.refs[pr.xid]? = some .promised
   xid_free : chLookup pr.st2.changes pr.xid = none
   size_eq : pr.size = d.st.refs.length + 2
@@ -43,7 +44,7 @@ theorem prep_facts (d0 d : Doc V) (chain0) (hb : BaseOK d0 chain0) (hi : Inv d0 
     rw [hp]
     have h1 := inv_alloc d0 d hi
     refine
-      { inv := h1, len_eq := by simp, xid_ge := Nat.le_refl _, xid_prom := by simp, xid_free := ?_, size_eq := rfl,
+      { inv := h1, len_eq := by simp, xid_ge := Nat.le_refl _, xid_le := by simp, xid_prom := by simp, xid_free := ?_, size_eq := rfl,
         size_ge := by simp, objs_eq := rfl, secs_eq := rfl, len_same := rfl, start_same := rfl, sx_same := rfl,
         cached_same := rfl, info_some := by intro i h; simp at h, info_none := fun _ => ⟨hinfo, rfl, rfl, rfl⟩,
         info_iff := by simp [hinfo], refs_sub := fun j hj => by simp [List.getElem?_append_left hj],
@@ -64,7 +65,7 @@ theorem prep_facts (d0 d : Doc V) (chain0) (hb : BaseOK d0 chain0) (hi : Inv d0 
                                    changes := chInsert d.st.changes d.st.refs.length (v, 0), cache := [] }, d.tr⟩ := by
       simpa [create, alloc] using h2
     refine
-      { inv := h2', len_eq := by simp, xid_ge := by simp, xid_prom := by simp, xid_free := ?_, size_eq := rfl,
+      { inv := h2', len_eq := by simp, xid_ge := by simp, xid_le := by simp, xid_prom := by simp, xid_free := ?_, size_eq := rfl,
         size_ge := by simp, objs_eq := rfl, secs_eq := rfl, len_same := rfl, start_same := rfl, sx_same := rfl,
         cached_same := rfl, info_some := ?_, info_none := by intro h; simp at h,
         info_iff := by simp [hinfo], refs_sub := ?_, ch_sub := ?_, ch_mid := ?_, ch_sup := ?_ }
@@ -101,9 +102,12 @@ theorem save_ok_spec (P : Params V) (L : Layout) (d d' : Doc V) (i : SaveInfo) (
       rowsOf ((w.refs.set (prep d).xid (.raw (w.len - (prep d).st2.start) 0)).take ((prep d).xid + 1)) = some rows ∧
       d'.st = commit P L d (prep d) w (w.refs.set (prep d).xid (.raw (w.len - (prep d).st2.start) 0)) rows ∧
       loadTrailer d'.st d.tr.root (prep d).infoRef d.tr.prev = .ok d'.tr ∧
-      i.xid = (prep d).xid ∧ i.xpos = w.len - (prep d).st2.start ∧ i.size = (prep d).size ∧ i.rows = rows := by
+      i.xid = (prep d).xid ∧ i.xpos = w.len - (prep d).st2.start ∧ i.size = (prep d).size ∧ i.rows = rows ∧
+      d.st.refs.length + 2 ≤ MAX_ID := by
   unfold save at h
-  simp only at h
+  by_cases hbig : d.st.refs.length + 2 > MAX_ID
+  · simp [hbig] at h
+  simp only [hbig, if_false] at h
   generalize hw : writeChanges P L (prep d).st2.start (prep d).st2.changes
       ⟨(prep d).st2.refs, (prep d).st2.objs, (prep d).st2.len⟩ = res at h
   obtain ⟨w, o⟩ := res
@@ -122,7 +126,7 @@ theorem save_ok_spec (P : Params V) (L : Layout) (d d' : Doc V) (i : SaveInfo) (
       | ok tr =>
         simp only [Prod.mk.injEq, Out.ok.injEq] at h
         obtain ⟨rfl, rfl⟩ := h
-        exact ⟨w, rows, rfl, hr, rfl, hl, rfl, rfl, rfl, rfl⟩
+        exact ⟨w, rows, rfl, hr, rfl, hl, rfl, rfl, rfl, rfl, by omega⟩
       | err => simp at h
       | panic => simp at h
       | oof => simp at h
@@ -279,7 +283,7 @@ theorem inv_of_commit (P : Params V) (L : Layout) (hL : L.Pos) (d0 d d' : Doc V)
 theorem save_tr_eq (P : Params V) (L : Layout) (d0 d d' : Doc V) (chain0) (i : SaveInfo)
     (hb : BaseOK d0 chain0) (hi : Inv d0 d) (h : save P L d = (d', .ok i)) : d'.tr = d.tr := by
   have pf := prep_facts d0 d chain0 hb hi
-  obtain ⟨w, rows, hw, hr, hst, hl, _, _, _, _⟩ := save_ok_spec P L d d' i h
+  obtain ⟨w, rows, hw, hr, hst, hl, _, _, _, _, _⟩ := save_ok_spec P L d d' i h
   obtain ⟨t1, t2, _, t4, t5⟩ := loadTrailer_ok _ _ _ _ _ hl
   have hlook : ∀ j, chLookup d'.st.changes j =
       if j = (prep d).xid then some (P.xrefVal, 0) else chLookup (prep d).st2.changes j := by
@@ -301,7 +305,7 @@ theorem save_tr_eq (P : Params V) (L : Layout) (d0 d d' : Doc V) (chain0) (i : S
 /-- a successful save keeps the invariant -/
 theorem inv_save_ok (P : Params V) (L : Layout) (hL : L.Pos) (d0 d d' : Doc V) (chain0) (i : SaveInfo)
     (hb : BaseOK d0 chain0) (hi : Inv d0 d) (h : save P L d = (d', .ok i)) : Inv d0 d' := by
-  obtain ⟨w, rows, hw, hr, hst, hl, _, _, _, _⟩ := save_ok_spec P L d d' i h
+  obtain ⟨w, rows, hw, hr, hst, hl, _, _, _, _, _⟩ := save_ok_spec P L d d' i h
   exact inv_of_commit P L hL d0 d d' chain0 hb hi w rows hw hst (save_tr_eq P L d0 d d' chain0 i hb hi h)
 
 theorem dropLast_get (l : List XRef) (j : Nat) (hj : j + 1 < l.length) : (l.dropLast)[j]? = l[j]? := by
@@ -402,7 +406,12 @@ theorem keys_lt (d0 d : Doc V) (hi : Inv d0 d) : ∀ id ∈ keys d.st.changes, i
   | some x => exact hi.ch_lt id x hc
 
 /-- the three ways `save` ends for a reachable document -/
-theorem save_cases (P : Params V) (L : Layout) (d0 d : Doc V) (chain0) (hb : BaseOK d0 chain0) (hi : Inv d0 d) :
+theorem save_too_big (P : Params V) (L : Layout) (d : Doc V) (h : MAX_ID < d.st.refs.length + 2) :
+    save P L d = (d, .err) := by
+  unfold save; simp [h]
+
+theorem save_cases (P : Params V) (L : Layout) (d0 d : Doc V) (chain0) (hb : BaseOK d0 chain0) (hi : Inv d0 d)
+    (hsz : d.st.refs.length + 2 ≤ MAX_ID) :
     (∃ w, writeChanges P L (prep d).st2.start (prep d).st2.changes ⟨(prep d).st2.refs, (prep d).st2.objs, (prep d).st2.len⟩
             = (w, .err) ∧
           save P L d = (⟨{ (prep d).st2 with refs := w.refs.dropLast }, d.tr⟩, .err)) ∨
@@ -421,6 +430,7 @@ theorem save_cases (P : Params V) (L : Layout) (d0 d : Doc V) (chain0) (hb : Bas
              save P L d =
               (⟨commit P L d (prep d) w (w.refs.set (prep d).xid (.raw (w.len - (prep d).st2.start) 0)) rows, d.tr⟩, .err)))) := by
   have pf := prep_facts d0 d chain0 hb hi
+  have hnb : ¬ (d.st.refs.length + 2 > MAX_ID) := by omega
   have hout := writeChanges_outcome P L (prep d).st2.start (prep d).st2.changes
     ⟨(prep d).st2.refs, (prep d).st2.objs, (prep d).st2.len⟩ (keys_lt d0 _ pf.inv)
   generalize hw : writeChanges P L (prep d).st2.start (prep d).st2.changes
@@ -435,7 +445,7 @@ theorem save_cases (P : Params V) (L : Layout) (d0 d : Doc V) (chain0) (hb : Bas
     | none =>
       left
       refine ⟨w, rfl, hr, ?_⟩
-      unfold save; simp only [hw, hr]
+      unfold save; simp only [hnb, if_false, hw, hr]
     | some rows =>
       right
       refine ⟨w, rows, rfl, hr, ?_⟩
@@ -447,21 +457,23 @@ theorem save_cases (P : Params V) (L : Layout) (d0 d : Doc V) (chain0) (hb : Bas
         refine ⟨⟨(prep d).xid, w.len - (prep d).st2.start, (prep d).size,
           (widths (w.refs.set (prep d).xid (.raw (w.len - (prep d).st2.start) 0))).1,
           (widths (w.refs.set (prep d).xid (.raw (w.len - (prep d).st2.start) 0))).2, rows⟩, tr, ?_⟩
-        unfold save; simp only [hw, hr, hl]
-      | err => right; refine ⟨rfl, ?_⟩; unfold save; simp only [hw, hr, hl]
+        unfold save; simp only [hnb, if_false, hw, hr, hl]
+      | err => right; refine ⟨rfl, ?_⟩; unfold save; simp only [hnb, if_false, hw, hr, hl]
       | panic =>
         exact absurd hl (loadTrailer_total _ _ _ _).1
       | oof => exact absurd hl (loadTrailer_total _ _ _ _).2
   · rw [if_neg hall] at hout; subst hout
     left
     refine ⟨w, rfl, ?_⟩
-    unfold save; simp only [hw]
+    unfold save; simp only [hnb, if_false, hw]
 
 /-- `save` keeps the invariant whatever its outcome, and its outcome is a value or an error -/
 theorem inv_save (P : Params V) (L : Layout) (hL : L.Pos) (d0 d : Doc V) (chain0) (hb : BaseOK d0 chain0)
     (hi : Inv d0 d) : Inv d0 (save P L d).1 ∧ ((∃ i, (save P L d).2 = .ok i) ∨ (save P L d).2 = .err) := by
   have pf := prep_facts d0 d chain0 hb hi
-  rcases save_cases P L d0 d chain0 hb hi with ⟨w, hw, hs⟩ | ⟨w, hw, hr, hs⟩ | ⟨w, rows, hw, hr, hs⟩
+  by_cases hsz : d.st.refs.length + 2 ≤ MAX_ID
+  case neg => rw [save_too_big P L d (by omega)]; exact ⟨hi, Or.inr rfl⟩
+  rcases save_cases P L d0 d chain0 hb hi hsz with ⟨w, hw, hs⟩ | ⟨w, hw, hr, hs⟩ | ⟨w, rows, hw, hr, hs⟩
   · obtain ⟨f1, f2, f3, _⟩ := writeChanges_frame P L _ _ _ _ _ hw pf.inv.sorted
     rw [hs]
     exact ⟨inv_rollback d0 d chain0 hb hi w.refs f1 (fun j _ hc => f2 j hc) f3, Or.inr rfl⟩
